@@ -1,5 +1,12 @@
 /-
 C06 — filters run container, service, route in order, each once, per request.
+
+All six entry points.  Since a0e838d (F18 of C10 repaired) the chain `HandleWithFilter` builds —
+the container filters around the plain handler — has the same deferred recover as `dispatch`: with
+recovery on and a custom recover handler, an event of the recover handler may follow that chain's
+events too (`Serve.Chain.plainFilteredBody_logsAs`).  The statements are unchanged: `C06_log` compares
+the user-code events, `C06_log_full` says that whatever follows the chain's events is the recover
+handler's; `C06_handle_with_filter_path` is the counterpart of `C06_error_path` for that chain.
 -/
 import Restful.Lemmas.Chain
 import Restful.Model.Conc
@@ -189,6 +196,34 @@ theorem C06_error_path (E : ReEnv) (cfg : Serve.Cfg) (w : Serve.World) (sr : Ser
       (∃ f ∈ cfg.cfilters, ev.stage = .cfilter f.id) ∨ ev.stage = .errorWriter ∨ ev.stage = .recover :=
   C06_error_path_entry E cfg .dispatch (.inl rfl) w sr c a tag hc hr
 
+/-- (3) a pattern registered with `HandleWithFilter` (through the mux alone or through
+    `Container.ServeHTTP`): the chain is the container filters, in registration order, around the
+    plain handler, and the model's log contains no other event than theirs, the handler's and —
+    after them, when a panic was recovered — the recover handler's -/
+theorem C06_handle_with_filter_path (E : ReEnv) (cfg : Serve.Cfg) (e : Serve.Entry) (he : e = .muxHandleF ∨ e = .serveHandleF)
+    (w : Serve.World) (sr : Serve.SReq) :
+    Spec.chainOf E cfg e sr = some (Serve.label .cfilter cfg.cfilters, ⟨.plain 0, cfg.plainScript⟩, {}) ∧
+    (∃ r, (∀ ev ∈ r, ev.stage = .recover) ∧
+      (Serve.serve E cfg e w sr).log =
+        (Spec.chainLog (Serve.label .cfilter cfg.cfilters) ⟨.plain 0, cfg.plainScript⟩ {}).1 ++ r) ∧
+    ∀ ev ∈ (Serve.serve E cfg e w sr).log,
+      (∃ f ∈ cfg.cfilters, ev.stage = .cfilter f.id) ∨ ev.stage = .plain 0 ∨ ev.stage = .recover := by
+  have hch : Spec.chainOf E cfg e sr = some (Serve.label .cfilter cfg.cfilters, ⟨.plain 0, cfg.plainScript⟩, {}) := by
+    rcases he with rfl | rfl <;> rfl
+  obtain ⟨r, hr1, hr2⟩ := Serve.Chain.serve_log E cfg e w sr
+  rw [Spec.chainEvents, hch] at hr2
+  refine ⟨hch, ⟨r, hr1, hr2⟩, ?_⟩
+  intro ev hev
+  rw [hr2] at hev
+  simp only [List.mem_append] at hev
+  rcases hev with hev | hev
+  · rcases Serve.Chain.chainLog_stage_mem _ _ _ ev hev with h | h
+    · rw [Serve.Chain.label_stages, List.mem_map] at h
+      obtain ⟨f, hf, h⟩ := h
+      exact .inl ⟨f, hf, h.symm⟩
+    · exact .inr (.inl h)
+  · exact .inr (.inr (hr1 ev hev))
+
 /-- (4) a filter that passes control on hands on its own Request and Response: the next stage
     starts with the attributes the filter's first part left, the same parameters, selected route
     path and writer -/
@@ -253,6 +288,33 @@ example :
     (Serve.serve E cfg .dispatch {} sr404).log.map (fun ev => (ev.stage, ev.post)) =
       [(.cfilter 1, false), (.cfilter 2, false), (.errorWriter, false), (.cfilter 2, true), (.cfilter 1, true)] ∧
     Spec.c06Holds E cfg .dispatch sr404 (Spec.obsOf (Serve.serve E cfg .dispatch {} sr404)) = true := by
+  decide
+
+/-- non-vacuity on the `HandleWithFilter` chain, recovery on with a custom recover handler: the
+    first container filter sets an attribute and passes on, the second panics.  The handler does not
+    run, no filter comes back, and the recover handler's event follows the chain's (it holds a bare
+    writer: no attributes, no wrappers); with a second filter that passes on, the handler runs and
+    both filters come back in reverse order.  `c06Holds` on both. -/
+example :
+    let E : ReEnv := ⟨fun _ _ => true, fun _ _ => true⟩
+    let cfg : Serve.Cfg :=
+      { routing := { router := .curly, services := [] }
+        cfilters := [{ id := 1, pre := [.setAttr "k".toList "v".toList], kind := .pass, post := [] },
+                     { id := 2, pre := [.panic "p".toList], kind := .pass, post := [] }]
+        plainScript := [.write "h".toList]
+        recover := true
+        recoverScript := some [.writeHeader 500] }
+    let cfgOk : Serve.Cfg := { cfg with cfilters := [{ id := 1, pre := [.setAttr "k".toList "v".toList], kind := .pass, post := [] },
+                                                     { id := 2, pre := [], kind := .pass, post := [] }] }
+    let sr : Serve.SReq := { req := { method := "GET".toList, path := "/x".toList } }
+    let kv := [("k".toList, "v".toList)]
+    (Serve.serve E cfg .serveHandleF {} sr).log =
+      [⟨.cfilter 1, false, [], [], [], []⟩, ⟨.cfilter 2, false, kv, [], [], []⟩, ⟨.recover, false, [], [], [], []⟩] ∧
+    (Serve.serve E cfg .serveHandleF {} sr).escaped = none ∧
+    Spec.c06Holds E cfg .serveHandleF sr (Spec.obsOf (Serve.serve E cfg .serveHandleF {} sr)) = true ∧
+    (Serve.serve E cfgOk .muxHandleF {} sr).log.map (fun ev => (ev.stage, ev.post)) =
+      [(.cfilter 1, false), (.cfilter 2, false), (.plain 0, false), (.cfilter 2, true), (.cfilter 1, true)] ∧
+    Spec.c06Holds E cfgOk .muxHandleF sr (Spec.obsOf (Serve.serve E cfgOk .muxHandleF {} sr)) = true := by
   decide
 
 /-- the concurrent half of "every request starts a fresh chain": a fact regenerated from the
